@@ -61,7 +61,7 @@ VERUS_TRUST = [
 CORE_TRUST = [
     'dependency-flow contracts of the transform-domain HAL operations (vx/prelude/dft_api.rs, core_api.rs): ASSUMED; for vec_znx_dft_{copy,add_assign,apply} they abstract the limb-selection contracts proved in units vec_znx_dft / vec_znx_dft_ntt120, for vmp / idft / big-normalise / big-add they restate the documented size rules (every limb of res written)',
     'A-ALIGN: every size query is a multiple of the 64-byte arena alignment and the arena starts aligned (true for N >= 8): a take of b bytes costs exactly b',
-    'A-VMP-RES / A-SIZES: the backend vmp scratch query is monotone in the operand limb count, independent of the result limb count, and all size queries stay below 2^56 bytes',
+    'A-VMP-RES / A-VMP-MIN / A-SIZES: the backend vmp scratch query is monotone in the operand limb count, independent of the result limb count, depends on (a_size, rows) only through min(a_size, rows) (proved for the FFT64 and NTT120 reference queries in unit vmp_fft64: (16 + 8*min(a_size, rows)*cols_in)*8; the Module dispatch to them is trusted), and all size queries stay below 2^56 bytes',
     'transform-domain containers reduced to shape + ghost per-limb dependency sets (vx/prelude/dft_layouts.rs); depl(limb) is an uninterpreted attribute of coefficient-domain limb contents',
 ]
 ZNX_FUNCS = ['znx_add_ref', 'znx_add_assign_ref', 'znx_sub_ref', 'znx_sub_assign_ref', 'znx_sub_negate_assign_ref', 'znx_negate_ref',
@@ -103,7 +103,7 @@ PROPS['C11'] = dict(
     technique='Verus postconditions that define every limb of the selected column from the inputs only, plus frame clauses over all other limb blocks, on the extracted real text',
     level_text='Unbounded proof for the coefficient-domain column operations: each ensures gives final(res).limb(col, j) for all j < size as a function of the read-only inputs (no old(res) on the right-hand side for out-of-place ops) and frame_ok: every block outside (col, 0..size) is unchanged.',
     level_note='Covers the vec_znx_* reference operations, the transform-domain wrappers of vec_znx_dft.rs (fft64 and ntt120, numeric kernels abstract), the GLWE operation wrappers, and -- core layer, as a dependency-flow proof over assumed HAL flow contracts -- gglwe_product_dft, glwe_keyswitch_internal, glwe_keyswitch and glwe_decrypt: with nothing required of the previous contents of res or of the scratch arena, no limb of the result depends on stale bytes (the accumulator taken from scratch must be cleared before the digit-grouped product: for dsize >= 3 its last limbs are only ever added to); idft/svp/vmp/convolution kernels themselves and the other core operations are not covered by this check.',
-    units=[V('vec_znx_arith'), V('vec_znx_ring'), V('vec_znx_merge'), V('vec_znx_split'), V('vec_znx_big'), V('vec_znx_normalize'), V('vec_znx_dft'), V('vec_znx_dft_ntt120'), V('vmp_fft64'), V('glwe_ops'), V('core_keyswitch'), V('core_decrypt'),
+    units=[V('vec_znx_arith'), V('vec_znx_ring'), V('vec_znx_merge'), V('vec_znx_split'), V('vec_znx_big'), V('vec_znx_normalize'), V('vec_znx_dft'), V('vec_znx_dft_ntt120'), V('vmp_fft64'), V('glwe_ops'), V('core_keyswitch'), V('core_extprod'), V('core_decrypt'),
            K('poulpy-cpu-ref', 'verif_kani::c11_ak', ['c11_ak_dft_apply__a3_r2_step2_off1', 'c11_ak_dft_apply__a2_r3_step1_off0', 'c11_ak_dft_apply__a3_r3_step2_off0', 'c11_ak_dft_apply__a2_r2_step1_off1'],
              cls='bounded', tier='thorough', timeout=1500, bound='FFT64Ref, N=8, two output columns, (a_size, res_size, step, offset) constant per harness; numeric kernels abstract',
              functions=['VecZnxDftApply::vec_znx_dft_apply (fft64 reference, real shape logic; fft_ref / reim_from_znx_i64_ref / table fills replaced by bit-level mixers)'],
@@ -152,7 +152,7 @@ PROPS['C12'] = dict(
         K('poulpy-cpu-ref', 'hal_defaults::scratch::verif_kani', ['c12_take_slice_aligned_contract', 'c12_take_slice_aligned_panics_iff_too_small',
           'c12_take_slice_default_u8', 'c12_take_slice_default_i64', 'c12_take_slice_default_f64', 'c12_take_slice_default_i128'], cls='complete', timeout=600,
           functions=['hal_defaults::scratch::take_slice_aligned', 'HalScratchDefaults::take_slice_default', 'HalScratchDefaults::scratch_available_default', 'HalScratchDefaults::scratch_from_bytes_default']),
-        V('vec_znx_ring'), V('vec_znx_normalize'), V('hal_glue'), V('vmp_fft64'), V('glwe_ops'), V('core_keyswitch'), V('core_decrypt'),
+        V('vec_znx_ring'), V('vec_znx_normalize'), V('hal_glue'), V('vmp_fft64'), V('glwe_ops'), V('core_keyswitch'), V('core_extprod'), V('core_decrypt'),
         K('poulpy-cpu-ref', 'verif_kani::c12_window', [f'c12_window_{op}__n4' for op in ('normalize_assign', 'rotate_assign', 'automorphism_assign', 'mul_xp_minus_one_assign', 'lsh_assign', 'rsh_assign')],
           cls='bounded', timeout=1200, bound='N=4 (limb byte size 32: not a multiple of the 64-byte alignment), size 2',
           functions=['HAL traits VecZnx{Normalize,Rotate,Automorphism,MulXpMinusOne,Lsh,Rsh}Assign with a scratch of exactly the companion *_tmp_bytes; two runs with different scratch contents']),
